@@ -727,6 +727,9 @@ pub fn c20(case_seed: u64, tier_variants: usize, acc: &mut Acc) {
         (b, sigs, Script { layout: vec![1], values: ValueFn::Unique { salt: 3, narrow: false }, faults: vec![], override_write: false }, 1u64)
     } else {
         let c = corpus_case(&mut r);
+        if !preflight_ok(&c, acc) {
+            return;
+        }
         (pp::print(&c.program, &c.layout_opts).text, c.signals, c.script, c.rng_seed)
     };
     let opts = RunOpts { max_steps: 300, probe_after_end: 0, stop_at_error: true, seed: Some(seed), continue_on: None };
